@@ -169,6 +169,11 @@ def judge_sharded(sdir, module, cfg, trace_path, workdir, nshards, timeout=1800)
                 by_case[c] = []
                 order.append(c)
             by_case[c].append(line)
+    # memory: a judge JVM holds its whole shard as TLC values (about 1 GB per 100 000 events). Shards are kept below
+    # 250 000 events and at most eight JVMs run at a time (measured before this: fourteen concurrent 3 GB JVMs plus the
+    # orchestrator took 54 of 62 GB for the thorough tier of C05)
+    nevents = sum(len(v) for v in by_case.values())
+    nshards = max(nshards, -(-nevents // 250000))
     shards = shard([by_case[c] for c in order], nshards)
     paths = []
     for k, s in enumerate(shards):
@@ -177,7 +182,7 @@ def judge_sharded(sdir, module, cfg, trace_path, workdir, nshards, timeout=1800)
             f.writelines(s)
         paths.append(p)
     rejects, agg = [], dict(generated=0, distinct=0, events=0, wall=0.0, out="", cmd="")
-    with concurrent.futures.ThreadPoolExecutor(max_workers=len(paths)) as ex:
+    with concurrent.futures.ThreadPoolExecutor(max_workers=min(len(paths), 8)) as ex:
         futs = [ex.submit(judge, sdir, module, cfg, p, workdir, timeout, "3g") for p in paths]
         for fu in futs:
             rj, r = fu.result()
